@@ -390,6 +390,9 @@ def conn_check(rng, drops=False, repeat=False):
     spec = {"kind": "conn_check", "device": dev, "zones": zones, "final_wait": 6}
     if repeat:
         spec["repeat"] = 2                 # the check is run twice on the same YncaApi object; the last run is the one judged
+        if rng.random() < 0.6:
+            # ... and the first run met a receiver that had all four zones (one has been switched off since / another receiver sits on the port)
+            spec["first_device"] = {"type": "scripted", "latency": 0.0, "avail": {z: "Ready" for z in ("MAIN", "ZONE2", "ZONE3", "ZONE4")}, "model": "RX-A3000"}
     if rng.random() < 0.05:
         spec["open_fails"] = True
     return spec
